@@ -22,4 +22,4 @@ def generate(repo):
         Func("readsleb128", stream="buff"),
         Func("writeuleb128", ret=T_BYTES, fuels=["Int.toNat value + 1"]),
         Func("writesleb128", ret=T_BYTES, fuels=["13"]),
-    ])
+    ], attr="pygen")
